@@ -4,7 +4,7 @@
 use std::sync::Once;
 
 use proptest::strategy::{Strategy, ValueTree};
-use proptest::test_runner::{Config, RngAlgorithm, TestRng, TestRunner};
+use proptest::test_runner::{Config, TestRunner};
 
 use crate::farm::interp::FMon;
 use crate::farm::ops::{FWeights, FarmCase};
@@ -30,11 +30,6 @@ pub fn init() {
     });
 }
 
-fn runner(data: &[u8]) -> TestRunner {
-    let rng = TestRng::from_seed(RngAlgorithm::PassThrough, data);
-    TestRunner::new_with_rng(Config { failure_persistence: None, ..Config::default() }, rng)
-}
-
 pub fn pool_engine() -> PoolHist {
     PoolHist {
         name: "fuzz-pool-backing",
@@ -58,20 +53,42 @@ pub fn farm_engine() -> FarmHist {
     }
 }
 
+/// The fuzzer mutates the JSON text of a case (the same serialisation the replay files use); a
+/// seed corpus of generated cases and a dictionary of the field names keep most mutants parseable.
+/// (proptest's pass-through RNG was tried first: it halves the remaining bytes at every fork and
+/// yields zeros once exhausted, which rand's uniform sampler rejects forever.)
 pub fn decode_pool_case(data: &[u8]) -> Option<PoolCase> {
-    if data.len() < 16 {
+    let c: PoolCase = serde_json::from_slice(data).ok()?;
+    if c.ops.len() > 80 || c.creates.len() > 5 {
         return None;
     }
-    let mut r = runner(data);
-    pool_engine().strategy(crate::framework::Tier::Quick).new_tree(&mut r).ok().map(|t| t.current())
+    Some(c)
 }
 
 pub fn decode_farm_case(data: &[u8]) -> Option<FarmCase> {
-    if data.len() < 16 {
+    let c: FarmCase = serde_json::from_slice(data).ok()?;
+    if c.ops.len() > 80 {
         return None;
     }
-    let mut r = runner(data);
-    farm_engine().strategy(crate::framework::Tier::Quick).new_tree(&mut r).ok().map(|t| t.current())
+    Some(c)
+}
+
+/// write `n` generated cases as a seed corpus
+pub fn dump_corpus(which: &str, n: usize, dir: &str, seed: u64) -> std::io::Result<()> {
+    use proptest::test_runner::RngSeed;
+    std::fs::create_dir_all(dir)?;
+    let mut r = TestRunner::new(Config { failure_persistence: None, rng_seed: RngSeed::Fixed(seed), ..Config::default() });
+    for i in 0..n {
+        let text = if which == "pool" {
+            let t = pool_engine().strategy(crate::framework::Tier::Quick).new_tree(&mut r).map_err(|e| std::io::Error::other(e.to_string()))?;
+            serde_json::to_string(&t.current()).unwrap()
+        } else {
+            let t = farm_engine().strategy(crate::framework::Tier::Quick).new_tree(&mut r).map_err(|e| std::io::Error::other(e.to_string()))?;
+            serde_json::to_string(&t.current()).unwrap()
+        };
+        std::fs::write(format!("{dir}/seed-{i:04}.json"), text)?;
+    }
+    Ok(())
 }
 
 pub fn run_pool_backing(case: &PoolCase) -> Result<(), String> {
